@@ -19,6 +19,7 @@
 #include "simulate/tms1000.h"
 #include "simulate/8008.h"
 #include "simulate/lc3.h"
+#include "simulate/6502.h"
 #undef private
 #undef protected
 
@@ -72,7 +73,7 @@ struct SimxOut
 
 static void simx_common_in(Simulate *sim, const SimxKV &kv)
 {
-  sim->set_break_io(0xfffffff0);
+  sim->set_break_io(kv.count("bio") ? (int)simx_u(kv, "bio") : (int)0xfffffff0);
   sim->set_show(simx_u(kv, "show") != 0);
   sim->set_clear(false);
   SimxPeek::cyc(sim) = (int)simx_u(kv, "cyc");
@@ -151,6 +152,23 @@ static std::string simx_lc3(const SimxKV &kv, Memory *memory, int &ret)
   return o.s;
 }
 
+static std::string simx_6502(const SimxKV &kv, Memory *memory, int &ret)
+{
+  Simulate6502 *sim = new Simulate6502(memory);
+  simx_common_in(sim, kv);
+  sim->reg_a = (int)simx_u(kv, "a"); sim->reg_x = (int)simx_u(kv, "x"); sim->reg_y = (int)simx_u(kv, "y");
+  sim->reg_sr = (int)simx_u(kv, "sr"); sim->reg_pc = (int)simx_u(kv, "pc"); sim->reg_sp = (int)simx_u(kv, "sp");
+  ret = simx_run(sim);
+  SimxOut o;
+  o.add("a", sim->reg_a); o.add("x", sim->reg_x); o.add("y", sim->reg_y); o.add("sr", sim->reg_sr);
+  o.add("pc", sim->reg_pc); o.add("sp", sim->reg_sp);
+  simx_common_out(sim, kv, o);
+  delete sim;
+  return o.s;
+}
+
+static std::string simx_body(const std::vector<std::string> &args, const SimxKV &kv, CpuList *cpu);
+
 static std::string cmd_simx(const std::vector<std::string> &args)
 {
   if (args.size() != 3) { return "bad-op"; }
@@ -175,6 +193,13 @@ static std::string cmd_simx(const std::vector<std::string> &args)
       i = j + 1;
     }
   }
+  // an armed break_io makes the simulator call exit(): run in a forked child, answer exit=<status>
+  if (kv.count("bio")) { return sim_forked([&]() { return simx_body(args, kv, cpu); }); }
+  return simx_body(args, kv, cpu);
+}
+
+static std::string simx_body(const std::vector<std::string> &args, const SimxKV &kv, CpuList *cpu)
+{
   std::vector<std::pair<uint32_t, int> > cells;
   if (!sim_parse_cells(args[2], cells)) { return "bad-op"; }
   Memory *memory = new Memory();
@@ -187,6 +212,7 @@ static std::string cmd_simx(const std::vector<std::string> &args)
   if (args[0] == "tms1000") { st = simx_tms1000(kv, memory, ret); }
   else if (args[0] == "8008") { st = simx_8008(kv, memory, ret); }
   else if (args[0] == "lc3") { st = simx_lc3(kv, memory, ret); }
+  else if (args[0] == "6502") { st = simx_6502(kv, memory, ret); }
   else { alarm(0); delete memory; return "not-modelled"; }
   alarm(0);
   char buf[32];
